@@ -114,7 +114,7 @@ func init() {
 			}
 			CheckC19Tree(c, entry, input)
 		},
-		Rule:        "(a) gen-ast-pos and gen-ast-walk are run on the working tree and their output compared byte for byte with ast/pos.go and ast/walk_internal.go; (b) for every node of every tree of the tree workload, Pos()/End() are compared with an independent evaluator of the documented 'pos ='/'end =' lines and with the repository's poslang interpreter; (c) the catalog's node-typed fields vs the struct fields; distinct_nontrivial = distinct (entry,input)",
+		Rule:        "(a) gen-ast-pos and gen-ast-walk are run on the working tree and their output compared byte for byte with ast/pos.go and ast/walk_internal.go; (b) for every node of every tree of the tree workload, Pos()/End() are compared with an independent evaluator of the documented 'pos ='/'end =' lines and with the repository's poslang interpreter; (c) the catalog's node-typed fields vs the struct fields; distinct_nontrivial = distinct (entry,input); (d) each parsed tree is rebuilt with sibling slots of one dynamic type sharing one node instance (a hand-built DAG, shared subtrees < 40 nodes) and the traversal is compared with the field model again",
 		Assumptions: []string{"the 'pos =' / 'end =' comment lines in ast/ast.go are the documentation; they are read with a regular expression and evaluated by internal/mon's own interpreter"},
 		Floors: func(m *Merged) []string {
 			var f []string
@@ -147,7 +147,7 @@ func init() {
 		ID:          "C11",
 		Run:         RunC11,
 		Replay:      func(c *Ctx, entry, input string) { CheckC11(c, entry, input) },
-		Rule:        "cases = ';'-joined lists of 1-4 corpus statements (all kinds -> ParseStatements, DDL -> ParseDDLs, DML -> ParseDMLs), some token-mutated, plus end-of-input-sensitive statements (trailing select-list comma), literals and comments containing ';', with hostile trivia / empty statements around the separators, plus long homogeneous lists (4096 quick / 20000 thorough copies of each of 56 statement shapes incl. rejected ones, 2500 copies of each sentence of the systematic set of grammar G) that drive one parser instance through thousands of statements; list parse vs SplitRawStatements + single parse of each piece with >= 1 token; distinct_nontrivial = distinct lists with >= 2 statements",
+		Rule:        "cases = ';'-joined lists of 1-4 corpus statements (all kinds -> ParseStatements, DDL -> ParseDDLs, DML -> ParseDMLs), some token-mutated, plus end-of-input-sensitive statements (trailing select-list comma), literals and comments containing ';', with hostile trivia / empty statements around the separators, plus long homogeneous lists (4096 quick / 20000 thorough copies of each of 56 statement shapes incl. rejected ones, 2500 copies of each sentence of the systematic set of grammar G) that drive one parser instance through thousands of statements, and a ';' inserted in front of every token of every corpus file and systematic sentence; list parse vs SplitRawStatements + single parse of each piece with >= 1 token; distinct_nontrivial = distinct lists with >= 2 statements",
 		Assumptions: []string{"'lexes without error' is decided by memefish.Lexer (checked by C13/C14)"},
 		Floors: func(m *Merged) []string {
 			if m.Counters["lists_clean"] == 0 || m.Counters["lists_with_error"] == 0 || m.Counters["empty_pieces"] == 0 || m.Counters["positions_compared"] == 0 {
@@ -160,7 +160,7 @@ func init() {
 		ID:          "C12",
 		Run:         RunC12,
 		Replay:      func(c *Ctx, entry, input string) { CheckC12(c, input) },
-		Rule:        "cases = input strings: statement lists of C11's workload, exhaustive strings up to 6 (quick) / 7 (thorough) symbols over {a ; ' \" ` - / * # LF SP \\}, token soups and hostile random bytes, every Unicode whitespace character and its non-whitespace neighbours around top-level ';'; pieces are checked against the independent reference lexer's tokens and comments; distinct_nontrivial = distinct accepted inputs with >= 1 ';' token and >= 1 other token",
+		Rule:        "cases = input strings: statement lists of C11's workload, exhaustive strings up to 6 (quick) / 7 (thorough) symbols over {a ; ' \" ` - / * # LF SP \\}, token soups and hostile random bytes, every Unicode whitespace character and its non-whitespace neighbours around top-level ';', the literal matrix (every prefix x quote form x escape / backslash run x quote run, complete and truncated) alone and between separators; pieces are checked against the independent reference lexer's tokens and comments; distinct_nontrivial = distinct accepted inputs with >= 1 ';' token and >= 1 other token",
 		Assumptions: []string{"the reference lexer decides 'has a lexical error'; inputs where it answers unspecified are not judged"},
 		Floors: func(m *Merged) []string {
 			if m.Counters["ref_accept"] == 0 || m.Counters["ref_reject"] == 0 || m.Counters["comments"] == 0 || m.Counters["semicolons"] == 0 {
@@ -243,7 +243,7 @@ func init() {
 		ID:          "C07",
 		Run:         RunC07,
 		Replay:      ReplayC07,
-		Rule:        "cases = operator trees over OR AND NOT = != <> < <= > >= [NOT] LIKE, [NOT] IN (list / UNNEST), [NOT] BETWEEN, IS [NOT] NULL/TRUE/FALSE, | ^ & << >> + - * / ||, unary + - ~, .f, [i], [OFFSET(i)] with ident / param / string / int / call atoms: exhaustive for all trees with up to 3 (quick) / 4 (thorough) operator occurrences, random trees up to 12 operators; each printed minimally parenthesised (by the documented table) and fully parenthesised; the parsed tree must equal the generating tree (ParenExpr exactly where a parenthesis was written; sign folding into numeric literals and ident.ident Path folding applied) and SQL() must re-lex to the same tokens; plus long chains (257 / 4099 / 12000, thorough 70001 operands) of every left-associative binary operator, of two operators of adjacent or equal precedence alternating, of each prefix operator and of subscripts, whose spine is checked node by node; plus all 324 unparenthesised chains of two comparison-family operators, which must be rejected; distinct_nontrivial = enumerated trees (distinct by construction) + distinct random trees",
+		Rule:        "cases = operator trees over OR AND NOT = != <> < <= > >= [NOT] LIKE, [NOT] IN (list / UNNEST), [NOT] BETWEEN, IS [NOT] NULL/TRUE/FALSE, | ^ & << >> + - * / ||, unary + - ~, .f, [i], [OFFSET(i)] with ident / param / string / int / call / INT64-boundary atoms and atoms that bring their own brackets or keywords (scalar, ARRAY and EXISTS sub-query, CASE, CAST, array literal, tuple): exhaustive for all trees with up to 3 (quick) / 4 (thorough) operator occurrences, random trees up to 12 operators; each printed minimally parenthesised (by the documented table) and fully parenthesised; the parsed tree must equal the generating tree (ParenExpr exactly where a parenthesis was written; sign folding into numeric literals and ident.ident Path folding applied) and SQL() must re-lex to the same tokens; plus long chains (257 / 4099 / 12000, thorough 70001 operands) of every left-associative binary operator, of two operators of adjacent or equal precedence alternating, of each prefix operator and of subscripts, whose spine is checked node by node; plus all 324 unparenthesised chains of two comparison-family operators, which must be rejected; distinct_nontrivial = enumerated trees (distinct by construction) + distinct random trees",
 		Assumptions: []string{"the precedence table in internal/mon/c07.go is the documented GoogleSQL table (levels as listed in the property statement)"},
 		Floors: func(m *Merged) []string {
 			if m.Counters["trees_checked"] == 0 || m.Counters["negative_cases"] == 0 || m.Counters["long_chains"] == 0 {
